@@ -5,6 +5,7 @@ package main
 
 import (
 	"fmt"
+	"go/constant"
 	"go/token"
 	"go/types"
 	"strings"
@@ -719,6 +720,7 @@ func runC15(r *Run, verifDir string) {
 	r.Rule("C15.O2", "the holder never escapes the request context", 3)
 	r.Rule("C15.O3", "the placeholder is accessed only through its accessors; an error clears it", 4)
 	r.Rule("C15.O4", "items of one request are processed sequentially", 1)
+	r.Rule("C15.O5", "the accessors are faithful: the setter stores its argument on every return, clear stores the empty value, the getter returns the field", 3)
 	nb := p.Func("kmipserver", "", "newBatchContext")
 	if nb == nil {
 		r.Unk("C15.O1", "kmipserver.newBatchContext", token.NoPos, "anchor missing")
@@ -955,6 +957,59 @@ func runC15(r *Run, verifDir string) {
 		}
 		r.Check(okClr, "C15.O3", "kmipserver.handleBatchItemError/clears", hb.Pos(), "a failed item clears the placeholder on every error path", "a failed item does not clear the ID placeholder on every error path: later items act on the identifier of a failed operation")
 	}
+	// every assignment of the failed status to an item that was being executed is preceded by the reset of the
+	// placeholder (a fresh item built for a skipped position after a stop is exempt: the failing item already cleared)
+	if kp := p.Pkg(""); kp != nil {
+		var failed int64 = -1
+		if c, ok := kp.Types.Scope().Lookup("ResultStatusOperationFailed").(*types.Const); ok {
+			if v, ok := constant.Int64Val(c.Val()); ok {
+				failed = v
+			}
+		}
+		nSt := 0
+		for _, fn := range pkgFuncs(p, "kmipserver") {
+			var clears []ssa.Instruction
+			allInstrs(fn, func(in ssa.Instruction) {
+				if c, ok := in.(*ssa.Call); ok && callID(&c.Call).is(srvPath, "", "ClearIdPlaceholder") {
+					clears = append(clears, in)
+				}
+			})
+			allInstrs(fn, func(in ssa.Instruction) {
+				st, ok := in.(*ssa.Store)
+				if !ok {
+					return
+				}
+				fa, ok := st.Addr.(*ssa.FieldAddr)
+				if !ok || typeName(fa.X.Type()) != "ResponseBatchItem" {
+					return
+				}
+				if fname(derefStruct(fa.X.Type()).Field(fa.Field)) != "ResultStatus" {
+					return
+				}
+				if _, fresh := fa.X.(*ssa.Alloc); fresh {
+					return
+				}
+				k, ok := constIntVal(st.Val)
+				if !ok || k != failed || failed < 0 {
+					return
+				}
+				nSt++
+				key := fmt.Sprintf("%s/failed-status#%d", fnKey(fn), nSt)
+				dom := false
+				for _, c := range clears {
+					if dominatesInstr(c, st) {
+						dom = true
+					}
+				}
+				if dom {
+					r.OK("C15.O3", key, st.Pos(), "the placeholder is cleared before the item is marked failed")
+				} else {
+					r.Bad("C15.O3", key, st.Pos(), "%s marks an executed item as failed without clearing the ID placeholder first: later items of the request without a Unique Identifier act on the identifier stored before the failure", fnKey(fn))
+				}
+			})
+		}
+	}
+	c15O5(r)
 	// O4
 	hr := p.Func("kmipserver", "BatchExecutor", "handleRequest")
 	hasGo := false
@@ -1186,4 +1241,135 @@ func lenPositiveCond(cond ssa.Value, outcome bool) bool {
 		return !outcome
 	}
 	return false
+}
+
+// c15O5: "a value stored while processing one item is what later items observe" needs faithful accessors:
+// SetIdPlaceholder stores exactly its argument on every path that returns, ClearIdPlaceholder stores the empty
+// string on every path with a holder, IdPlaceholder returns the field unchanged whenever there is a holder.
+func c15O5(r *Run) {
+	p := r.P
+	isPH := func(addr ssa.Value) bool {
+		fa, ok := addr.(*ssa.FieldAddr)
+		if !ok {
+			return false
+		}
+		st := derefStruct(fa.X.Type())
+		return st != nil && fname(st.Field(fa.Field)) == "idPlaceholder"
+	}
+	// a return is excused when it lies on the "no holder" edge (bd == nil)
+	noHolder := func(b *ssa.BasicBlock) bool {
+		for _, dc := range dominatingConds(b) {
+			if bo, ok := dc.cond.(*ssa.BinOp); ok && (isNilConst(bo.Y) || isNilConst(bo.X)) && (bo.Op == token.EQL) == dc.outcome {
+				return true
+			}
+		}
+		return false
+	}
+	strParam := func(fn *ssa.Function) *ssa.Parameter {
+		for _, prm := range fn.Params {
+			if b, ok := prm.Type().Underlying().(*types.Basic); ok && b.Info()&types.IsString != 0 {
+				return prm
+			}
+		}
+		return nil
+	}
+	setFn := p.Func("kmipserver", "", "SetIdPlaceholder")
+	clrFn := p.Func("kmipserver", "", "ClearIdPlaceholder")
+	getFn := p.Func("kmipserver", "", "IdPlaceholder")
+	// storesOn: the instructions of fn that store `want(val)` into the placeholder
+	check := func(fn *ssa.Function, key string, want func(v ssa.Value) bool, what string, viaSetter bool) bool {
+		if fn == nil {
+			r.Unk("C15.O5", key, token.NoPos, "anchor missing")
+			return false
+		}
+		var good []ssa.Instruction
+		bad := token.NoPos
+		allInstrs(fn, func(in ssa.Instruction) {
+			switch x := in.(type) {
+			case *ssa.Store:
+				if isPH(x.Addr) {
+					if want(unspill(x.Val)) {
+						good = append(good, in)
+					} else {
+						bad = x.Pos()
+					}
+				}
+			case *ssa.Call:
+				if viaSetter && setFn != nil && x.Call.StaticCallee() == setFn && len(x.Call.Args) == 2 && want(unspill(x.Call.Args[1])) {
+					good = append(good, in)
+				}
+			}
+		})
+		if bad.IsValid() {
+			r.Bad("C15.O5", key, bad, "%s stores something else than %s in the placeholder: what later items observe is not what was stored", fnKey(fn), what)
+			return false
+		}
+		for _, b := range fn.Blocks {
+			if len(b.Instrs) == 0 {
+				continue
+			}
+			ret, ok := b.Instrs[len(b.Instrs)-1].(*ssa.Return)
+			if !ok || noHolder(b) {
+				continue
+			}
+			dom := false
+			for _, g := range good {
+				if dominatesInstr(g, ret) {
+					dom = true
+				}
+			}
+			if !dom {
+				pos := ret.Pos()
+				if !pos.IsValid() {
+					pos = fn.Pos()
+				}
+				r.Bad("C15.O5", key, pos, "%s can return without having stored %s in the placeholder (a conditional or skipped store): the value a handler stored, or the reset after a failed item, is not what later items of the request observe", fnKey(fn), what)
+				return false
+			}
+		}
+		r.OK("C15.O5", key, fn.Pos(), "%s stores %s on every return with a holder (%d store site(s))", fnKey(fn), what, len(good))
+		return true
+	}
+	var sp *ssa.Parameter
+	if setFn != nil {
+		sp = strParam(setFn)
+	}
+	setOK := check(setFn, "kmipserver.SetIdPlaceholder/stores-argument", func(v ssa.Value) bool { return sp != nil && v == ssa.Value(sp) }, "its argument", false)
+	isEmpty := func(v ssa.Value) bool {
+		c, ok := v.(*ssa.Const)
+		return ok && c.Value != nil && isStringConst(c) && constStringVal(c) == ""
+	}
+	check(clrFn, "kmipserver.ClearIdPlaceholder/stores-empty", isEmpty, "the empty string", setOK)
+	// getter: every return with a holder returns the loaded field itself
+	key := "kmipserver.IdPlaceholder/returns-field"
+	if getFn == nil {
+		r.Unk("C15.O5", key, token.NoPos, "anchor missing")
+		return
+	}
+	bad, n := token.NoPos, 0
+	for _, b := range getFn.Blocks {
+		if len(b.Instrs) == 0 {
+			continue
+		}
+		ret, ok := b.Instrs[len(b.Instrs)-1].(*ssa.Return)
+		if !ok || len(ret.Results) != 1 {
+			continue
+		}
+		if noHolder(b) {
+			continue
+		}
+		n++
+		ld, ok := unspill(ret.Results[0]).(*ssa.UnOp)
+		if !ok || ld.Op != token.MUL || !isPH(ld.X) {
+			bad = ret.Pos()
+		}
+	}
+	switch {
+	case bad.IsValid():
+		r.Bad("C15.O5", key, bad, "IdPlaceholder returns something else than the stored placeholder")
+	case n == 0:
+		r.Unk("C15.O5", key, getFn.Pos(), "no return with a holder found")
+	default:
+		r.OK("C15.O5", key, getFn.Pos(), "returns the stored field unchanged")
+	}
 }
